@@ -188,6 +188,23 @@ Definition thread_trace (tbl : list row) (t : nat) (calls : list string) : list 
 (* unguarded access (a GNone row) for the refutation example *)
 Definition bare_access (t : nat) (f : string) (w : bool) : list ev := [Acc t f w].
 
+(* ------------------------------------------------------------------ 4. lock order *)
+(* a snapshot of who holds which mutexes and who waits for which *)
+Record wstate := { w_holds : nat -> list string; w_waits : nat -> option string }.
+
+Fixpoint rank_of (ranks : list (string * nat)) (l : string) : option nat :=
+  match ranks with [] => None | (k, r) :: t => if String.eqb k l then Some r else rank_of t l end.
+
+(* the certificate: every edge goes strictly upwards in the numbering *)
+Definition ranks_ok (edges : list (string * string)) (ranks : list (string * nat)) : bool :=
+  forallb (fun e => match rank_of ranks (fst e), rank_of ranks (snd e) with
+                    | Some a, Some b => Nat.ltb a b
+                    | _, _ => false
+                    end) edges.
+
+Definition edge_in (edges : list (string * string)) (h w : string) : bool :=
+  existsb (fun e => String.eqb (fst e) h && String.eqb (snd e) w) edges.
+
 (* ------------------------------------------------------------------ glue (prop 20) *)
 Fixpoint nodupb (l : list Z) : bool :=
   match l with [] => true | x :: r => negb (existsb (Z.eqb x) r) && nodupb r end.
